@@ -332,12 +332,13 @@ class FieldCodeGenerator:
         if not self._optional:
             return
 
-        if self._context.reached_optional_field:
+        if self._context.reached_optional_field and self._data.reached_missing_optional_assigned:
             self._data.serialize.add_line(
                 f"reached_missing_optional = reached_missing_optional or data._{self._name} is None"
             )
         else:
             self._data.serialize.add_line(f"reached_missing_optional = data._{self._name} is None")
+        self._data.reached_missing_optional_assigned = True
         self._data.serialize.begin_control_flow("if not reached_missing_optional")
 
     def _generate_serialize_none_not_allowed_error(self):
